@@ -34,6 +34,29 @@ KERNELS = [
          func=r"set_fan_data_add_gaps_help\(ProjData& proj_data,", span=GAPSPAN, c_header=GAPHDR % "K_add_gaps_map", loops=0,
          rules=GAPRULES, post="return 1;"),
 ]
+
+def RATIO(name, cxx, func, meas, norm):
+    """the element update statement of the four iterate_{geo,block}_norm functions (statement kernels, one shared contract)"""
+    return dict(name=name, file=F, cxx_name=cxx + ": element update (statement kernel)", func=func,
+                span=(norm + r"\s*=\s*\(" + meas + r" >= threshold", r":\s*0;"),
+                c_header="float %s(const float measured, const float model, const float threshold)" % name, loops=0, contract_alias="K_ml_ratio",
+                rules=[(meas, "measured", 3), (norm + r"\s*=", "return", 1), (norm, "model", 2),
+                       # the float quotient itself is abstracted to the ghost g_ratio (= measured / model, set by the harness): no divider circuit in the kernel proof
+                       (r"measured / model", "K_RATIO(measured, model)", 1),
+                       # likewise the float product 10000 * model is the ghost g_limit (tied to the real product in the contract's requires)
+                       (r"10000 \* model", "K_LIMIT(model)", 1)])
+
+
+KERNELS += [
+    RATIO("K_ml_ratio_geo2d", "iterate_geo_norm(GeoData&, const GeoData&, const DetPairData&)",
+          r"iterate_geo_norm\(GeoData& norm_geo_data, const GeoData& measured_geo_data, const DetPairData& model\)", r"measured_geo_data\[a\]\[b\]", r"norm_geo_data\[a\]\[b\]"),
+    RATIO("K_ml_ratio_block2d", "iterate_block_norm(BlockData&, const BlockData&, const DetPairData&)",
+          r"iterate_block_norm\(BlockData& norm_block_data, const BlockData& measured_block_data, const DetPairData& model\)", r"measured_block_data\[a\]\[b\]", r"norm_block_data\[a\]\[b\]"),
+    RATIO("K_ml_ratio_geo3d", "iterate_geo_norm(GeoData3D&, const GeoData3D&, const FanProjData&)",
+          r"iterate_geo_norm\(GeoData3D& norm_geo_data, const GeoData3D& measured_geo_data, const FanProjData& model\)", r"measured_geo_data\(ra, a, rb, b\)", r"norm_geo_data\(ra, a, rb, b\)"),
+    RATIO("K_ml_ratio_block3d", "iterate_block_norm(BlockData3D&, const BlockData3D&, const FanProjData&)",
+          r"iterate_block_norm\(BlockData3D& norm_block_data, const BlockData3D& measured_block_data, const FanProjData& model\)", r"measured_block_data\(ra, a, rb, b\)", r"norm_block_data\(ra, a, rb, b\)"),
+]
 for k in KERNELS:
     if k["name"].startswith("K_fan_select"):
         k["contract_alias"] = "K_fan_select"
@@ -49,7 +72,7 @@ def jobs(tier, gen_dir):
 
     def J(name, entry, enforce=None, repl=(), kind="enforce", defs=None, kernels=(), **kw):
         out.append(Job("c20/" + name, HARNESS, entry, enforce=enforce, replace=list(repl), kernels=list(kernels), flags=CHK, no_base_flags=True,
-                       min_obligations=kw.pop("min_obligations", 3), timeout=300, backend="kissat", kind=kind, defines=defs or {}, **kw))
+                       min_obligations=kw.pop("min_obligations", 3), timeout=kw.pop("timeout", 300), backend=kw.pop("backend", "kissat"), kind=kind, defines=defs or {}, **kw))
 
     RD = ["FAN_MIN_B", "FAN_MAX_B", "FAN_RB_MIN", "FAN_RB_MAX"]
     J("K_fan_is_in_data", "h_K_fan_is_in_data", enforce="K_fan_is_in_data", repl=RD, kernels=["K_fan_is_in_data"])
@@ -65,6 +88,12 @@ def jobs(tier, gen_dir):
         J("K_remove_gaps_map" + sfx, "h_K_remove_gaps_map", enforce="K_remove_gaps_map", defs=d, params=pr, kernels=["K_remove_gaps_map"])
         J("K_add_gaps_map" + sfx, "h_K_add_gaps_map", enforce="K_add_gaps_map", defs=d, params=pr, kernels=["K_add_gaps_map"])
         J("lemma_gap_map" + sfx, "h_lemma_gap_map", kind="lemma", defs=d, params=pr, min_obligations=3)
+    # ML update of the geometric / block factors: element statement of the four iterate_*_norm functions (float, MiniSat)
+    for k in ("K_ml_ratio_geo2d", "K_ml_ratio_block2d", "K_ml_ratio_geo3d", "K_ml_ratio_block3d"):
+        J(k, "h_" + k, enforce=k, kernels=[k], backend="sat", min_obligations=2)
+        J("lemma_ml_fixed_point/" + k, "h_lemma_fixed_point_" + k, kind="lemma", repl=[k], kernels=[k], backend="sat", min_obligations=1, timeout=900)
+    out.append(Job("c20/canary/K_ml_ratio_block3d", HARNESS, "h_K_ml_ratio_block3d", enforce="K_ml_ratio_block3d", kernels=["K_ml_ratio_block3d"], kind="canary",
+                   defines={"CANARY_K_ml_ratio_block3d": None}, expect_fail=r"K_ml_ratio_block3d\.postcondition", no_base_flags=True, timeout=300))
     for k in ("K_fan_select", "K_remove_gaps_map"):
         out.append(Job("c20/canary/" + k, HARNESS, "h_" + k, enforce=k, replace=RD if "fan" in k else [], kernels=[k], kind="canary",
                        defines={"CANARY_" + k: None}, expect_fail=r"%s\.postcondition" % k, no_base_flags=True, timeout=300))
@@ -75,7 +104,7 @@ TRUSTED = ["index ranges of FanProjData as built by its constructor (read from t
            "get_det_pair_for_bin / get_bin_for_det_pair are decided under C01"]
 ASSUMPTIONS = ["parametric: crystals per block / virtual crystals per block are constants per job; crystal and ring numbers < 100000"]
 UNDECIDED_CLAUSES = ["apply/un-apply of efficiencies, geometric and block factors (float products; un-apply restores only up to rounding)",
-                     "fixed point and Kullback-Leibler descent of the ML iterations", "the loops of make_fan_data_remove_gaps_help / set_fan_data_add_gaps_help around the index maps",
+                     "fixed point of iterate_efficiencies, of the make_geo_data / make_block_data sums around the element update, and Kullback-Leibler descent of the ML iterations", "the loops of make_fan_data_remove_gaps_help / set_fan_data_add_gaps_help around the index maps",
                      "FanProjData constructor (index ranges assumed)"]
 
 
@@ -96,6 +125,8 @@ def replay(job, o, workroot, repo):
     cands = [["indata", 2, 8, 1, 1], ["indata", 3, 16, 2, 7], ["indata", 4, 12, 3, 5], ["indata", 1, 4, 0, 1], ["roundtrip"], ["gaps"]]
     if "gap" in job.name:
         cands = [["gaps"], ["roundtrip"]]
+    if "ml_" in job.name:
+        cands = [["mlblock"]]
     for c in cands:
         st, detail = native.run(exe, c, timeout=900)
         if st == "confirmed":
